@@ -4,8 +4,8 @@ Texts == { <<[lead |-> 0, w |-> "a"]>>,
            <<[lead |-> 2, w |-> "b"], [lead |-> 0, w |-> ""], [lead |-> 1, w |-> "c"]>>,
            <<[lead |-> 0, w |-> ""]>> }
 Titles == { [id |-> "T", len |-> 1], [id |-> "Title", len |-> 5], [id |-> "Ünï", len |-> 3],
-            \* wide characters and a combining accent: the frame has the length of the title in characters
-            [id |-> "工具a", len |-> 3], [id |-> "Café", len |-> 5] }
+            \* wide characters (%W) and a combining accent (~), substituted by the harness: the frame has the length of the title in characters
+            [id |-> "%W%Wa", len |-> 3], [id |-> "Cafe~", len |-> 5] }
 Items == { <<"i">>, <<"i", "j">> }
 AllOps == {"text", "field", "blist", "elist", "directive", "option", "set_title", "clear", "to_text"}
 NoTitleOps == AllOps \ {"set_title", "elist"}
